@@ -67,3 +67,48 @@ def boundary_values(L, tname):
     for lo, hi in L.allowed(tname):
         out.extend([lo, hi])
     return sorted(set(out))
+
+
+def size_perturbations(L, case, ref):
+    """Every size field of a well-formed case x {-k, +k (k in 1,2,5), 0, max, fits-exactly, exceeds-by-one}.
+
+    `ref` is the reference decode of the unperturbed case (for the region table).  Yields (token index, new value, label, depth)."""
+    regions = {r["path"]: r for r in ref.regions}
+    all_regions = list(ref.regions)
+    for i in size_sites(L, case):
+        path, t, v = case.tokens[i]
+        lo, hi = L.limits(t)
+        reg = regions.get(path)
+        cands = {}
+        for k in (1, 2, 5):
+            cands[f"-{k}"] = v - k
+            cands[f"+{k}"] = v + k
+        cands["zero"] = 0
+        cands["max"] = hi
+        depth = 0
+        if reg is not None:
+            s = reg["start"]
+            enclosing = [q for q in all_regions if q is not reg and q["start"] <= s and q["start"] + q["max"] >= s + reg["max"] and q["size_event"] < reg["size_event"]]
+            depth = len(enclosing)
+            if enclosing:
+                room = min(q["start"] + q["max"] for q in enclosing) - s
+                cands["fits"] = room
+                cands["exceeds"] = room + 1
+        seen = set()
+        for label, nv in cands.items():
+            if lo <= nv <= hi and nv != v and nv not in seen:
+                seen.add(nv)
+                yield i, nv, label, depth
+
+
+def value_perturbations(L, case):
+    """Every constrained leaf x (values just outside each interval, 0, width limits when outside; every valid boundary kept).
+
+    Yields (token index, new value, 'outside'|'boundary')."""
+    for i in constrained_sites(L, case):
+        path, t, v = case.tokens[i]
+        for nv in L.outside_values(t):
+            yield i, nv, "outside"
+        for nv in boundary_values(L, t):
+            if nv != v:
+                yield i, nv, "boundary"
